@@ -61,6 +61,7 @@ type c16In struct {
 	ctx      context.Context
 	cancel   context.CancelFunc
 	pre      bool // cancelled by the main task before the combinator is called
+	never    bool // cannot be cancelled at all: cancel requests are no-ops
 	invoked  bool // a cancel has been invoked (or the context may expire by itself)
 	returned bool // a cancel has returned
 }
@@ -72,7 +73,10 @@ const (
 func c16Own(i int) c16Key { return c16Key(fmt.Sprintf("own%d", i)) }
 
 // c16DrawInput builds input i: it carries Value(shared)=100+i and Value(own<i>)=200+i.
-func c16DrawInput(i int) *c16In {
+func c16DrawInput(i int) *c16In { return c16DrawInputN(i, false) }
+
+// c16DrawInputN: allowNever additionally admits inputs that can never be cancelled.
+func c16DrawInputN(i int, allowNever bool) *c16In {
 	in := &c16In{idx: i}
 	base := context.WithValue(context.WithValue(context.Background(), c16Shared, 100+i), c16Own(i), 200+i)
 	switch x := simrt.Draw(10); {
@@ -90,6 +94,12 @@ func c16DrawInput(i int) *c16In {
 		inner, c := context.WithCancel(base)
 		in.ctx, in.cancel = c16Wrap{inner}, c
 		simrt.Probe("foreign_context")
+	case x < 9 && allowNever && simrt.Chance(1, 2):
+		// a context that can never be cancelled (values only): it is live for ever
+		in.kind = 5
+		in.never = true
+		in.ctx, in.cancel = context.WithoutCancel(base), func() {}
+		simrt.Probe("never_cancellable_input")
 	case x < 9:
 		in.kind = 4
 		inner, c := context.WithCancel(base)
@@ -108,11 +118,14 @@ func c16DrawInput(i int) *c16In {
 		in.invoked = true // may expire at any moment from now on
 		simrt.Probe("timeout_input")
 	}
-	in.pre = simrt.Chance(1, 5)
+	in.pre = simrt.Chance(1, 5) && !in.never
 	return in
 }
 
 func (in *c16In) doCancel() {
+	if in.never {
+		return // nothing to cancel: the input stays live
+	}
 	in.invoked = true
 	simrt.Fault("ctx_cancel")
 	in.cancel()
@@ -354,7 +367,7 @@ func c16Conflated() {
 			simrt.Probe("duplicate_input")
 			continue
 		}
-		ins[i] = c16DrawInput(i)
+		ins[i] = c16DrawInputN(i, true)
 		live = append(live, ins[i])
 	}
 	if simrt.Chance(1, 6) {
